@@ -39,6 +39,9 @@ import (
 type zzC20FilePlan struct {
 	TS  []int64 `json:"ts"`
 	Len []int   `json:"len"`
+	// Lay is the record layout of every line (QLogFile!Layouts): -1 or
+	// absent for the bare record {"T":..}, else order*12 + addr*3 + tsf.
+	Lay []int `json:"lay"`
 }
 
 // zzC20Case is one unit of work.
@@ -72,19 +75,78 @@ type zzC20Built struct {
 	n   int
 }
 
-// zzC20Line renders global line g with timestamp ns to exactly ln bytes.
-func zzC20Line(g int, ns int64, ln int) (b []byte) {
-	ts := time.Unix(0, ns).UTC().Format(time.RFC3339Nano)
-	head := `{"T":"` + ts + `","I":` + strconv.Itoa(g) + `,"F":"`
-	pad := ln - len(head) - 2
+// Vocabulary of record layouts, in the order of QLogFile!Orders, !Addrs and
+// !TsForms as checks/c20.py numbers them.
+var (
+	zzC20Addrs = []string{
+		"192.168.10.77",
+		"2001:db8::1",
+		"2001:0db8:85a3:0000:1111:8a2e:0370:7334",
+		"fe80::1234:5678:9abc:def0%enp0s31f6",
+	}
+	zzC20LongPre = []int{0, 0, 130, 260, 1100, 0}
+	zzC20ZoneOff = time.FixedZone("", 5*3600+45*60)
+	zzC20ZoneNs  = time.FixedZone("", -(7*3600 + 30*60))
+)
+
+// zzC20Time spells the timestamp in form tsf: 0 UTC with the shortest
+// fraction, 1 numeric zone offset, 2 nine fraction digits and a numeric zone
+// offset.
+func zzC20Time(ns int64, tsf int) (s string) {
+	t := time.Unix(0, ns)
+	switch tsf {
+	case 1:
+		return t.In(zzC20ZoneOff).Format(time.RFC3339Nano)
+	case 2:
+		return t.In(zzC20ZoneNs).Format("2006-01-02T15:04:05.000000000Z07:00")
+	default:
+		return t.UTC().Format(time.RFC3339Nano)
+	}
+}
+
+// zzC20Line renders global line g with timestamp ns in layout lay to exactly
+// ln bytes.  The padding goes into the property "F".
+func zzC20Line(g int, ns int64, ln, lay int) (b []byte) {
+	var head, tail string
+	idx := `"I":` + strconv.Itoa(g)
+	if lay < 0 {
+		head = `{"T":"` + zzC20Time(ns, 0) + `",` + idx + `,"F":"`
+		tail = `"}`
+	} else {
+		order, addr, tsf := lay/12, zzC20Addrs[(lay/3)%4], lay%3
+		tprop := `"T":"` + zzC20Time(ns, tsf) + `"`
+		ip := `"IP":"` + addr + `"`
+		switch order {
+		case 0:
+			// The current writer: the time comes first.
+			head = `{` + tprop + `,"QH":"example.org","QT":"A","QC":"IN",` + ip + `,` + idx + `,"F":"`
+			tail = `"}`
+		case 1:
+			// Older files and the package's own tests: the address first.
+			head = `{` + ip + `,` + tprop + `,"QH":"example.org","QT":"A","QC":"IN",` + idx + `,"F":"`
+			tail = `"}`
+		case 5:
+			// The time is the last property of the record.
+			head = `{` + ip + `,"QT":"A",` + idx + `,"F":"`
+			tail = `",` + tprop + `}`
+		default:
+			// Long properties and the address before the time.
+			head = `{"QH":"` + strings.Repeat("h", zzC20LongPre[order]) + `.example.org","QT":"A","QC":"IN",` +
+				ip + `,` + tprop + `,` + idx + `,"F":"`
+			tail = `"}`
+		}
+	}
+
+	pad := ln - len(head) - len(tail)
 	if pad < 0 {
-		panic(fmt.Sprintf("zzC20: line %d cannot be rendered in %d bytes (head %d)", g, ln, len(head)))
+		panic(fmt.Sprintf("zzC20: line %d (layout %d) cannot be rendered in %d bytes (needs %d)", g, lay, ln, len(head)+len(tail)))
 	}
 
 	b = make([]byte, 0, ln+1)
 	b = append(b, head...)
 	b = append(b, bytes.Repeat([]byte{byte('a' + g%26)}, pad)...)
-	b = append(b, '"', '}', '\n')
+	b = append(b, tail...)
+	b = append(b, '\n')
 
 	return b
 }
@@ -105,7 +167,12 @@ func zzC20Build(dir string, c *zzC20Case) (bl *zzC20Built, err error) {
 		bl.off = append(bl.off, g)
 		for i := range fp.TS {
 			g++
-			buf.Write(zzC20Line(g, c.TSMap[fp.TS[i]], fp.Len[i]))
+			lay := -1
+			if i < len(fp.Lay) {
+				lay = fp.Lay[i]
+			}
+
+			buf.Write(zzC20Line(g, c.TSMap[fp.TS[i]], fp.Len[i], lay))
 			ends = append(ends, int64(buf.Len()-1))
 		}
 
